@@ -178,7 +178,8 @@ fn expected_complete(ctx: &RunCtx, only_free: bool) -> bool {
     true
 }
 
-fn threads_finished(ctx: &RunCtx) -> bool { ctx.threads_done.load(Ordering::SeqCst) == ctx.prog.threads.len() + 1 }
+pub fn helper_threads(ctx: &RunCtx) -> usize { 1 + !ctx.prog.pusher.is_empty() as usize }
+fn threads_finished(ctx: &RunCtx) -> bool { ctx.threads_done.load(Ordering::SeqCst) == ctx.prog.threads.len() + helper_threads(ctx) }
 
 pub fn run_program(prog: Program, opts: &Opts, plan: noise::Plan) -> RunResult {
     let native = opts.native;
@@ -229,12 +230,17 @@ pub fn run_program(prog: Program, opts: &Opts, plan: noise::Plan) -> RunResult {
     {
         let mut rng = Rng::new(ctx.prog.run_seed ^ 0x9a7e);
         for g in ctx.prog.prefired.clone() { ctx.gates[g].fire(&mut rng); }
+        // items that are in the input before the pipe exists
+        for (p, pd) in ctx.prog.pipes.iter().enumerate() {
+            for _ in 0..pd.preloaded { crate::pipes::push_item(&ctx, p); }
+            if pd.preclosed { crate::pipes::close_input(&ctx, p); }
+        }
     }
 
     // 3. start the threads behind a barrier; noise on
     noise::set_plan(plan, ctx.prog.run_seed);
     let nthreads = ctx.prog.threads.len();
-    let barrier = Arc::new(Barrier::new(nthreads + 1));
+    let barrier = Arc::new(Barrier::new(nthreads + helper_threads(&ctx)));
     let mut joins = vec![];
     for t in 0..nthreads {
         let c = Arc::clone(&ctx); let b = Arc::clone(&barrier); let m = mortal_clones[t].take();
@@ -251,8 +257,19 @@ pub fn run_program(prog: Program, opts: &Opts, plan: noise::Plan) -> RunResult {
         joins.push(thread::Builder::new().name("vh-f".into()).spawn(move || {
             let _ = c.firer.set(thread::current());
             b.wait();
-            let r = catch_unwind(AssertUnwindSafe(|| run_firer(&c)));
+            let r = catch_unwind(AssertUnwindSafe(|| run_firer(&c, false)));
             if let Err(e) = r { thread_panicked(&c, "vh-f", e); }
+            c.threads_done.fetch_add(1, Ordering::SeqCst);
+            c.main.unpark();
+        }).expect("spawn"));
+    }
+    if !ctx.prog.pusher.is_empty() {
+        let c = Arc::clone(&ctx); let b = Arc::clone(&barrier);
+        joins.push(thread::Builder::new().name("vh-p".into()).spawn(move || {
+            let _ = c.pusher.set(thread::current());
+            b.wait();
+            let r = catch_unwind(AssertUnwindSafe(|| run_firer(&c, true)));
+            if let Err(e) = r { thread_panicked(&c, "vh-p", e); }
             c.threads_done.fetch_add(1, Ordering::SeqCst);
             c.main.unpark();
         }).expect("spawn"));
@@ -290,8 +307,8 @@ pub fn run_program(prog: Program, opts: &Opts, plan: noise::Plan) -> RunResult {
 
     // pool 0: nothing drains detached work unless a caller does; sweep with sync until everything accepted has run
     if outcome == Outcome::Completed && ctx.prog.pool == 0 {
-        for _round in 0..4 {
-            if expected_complete(&ctx, false) { break; }
+        for round in 0..4 {
+            if round > 0 && expected_complete(&ctx, false) { break; }
             let c = Arc::clone(&ctx);
             let objs: Vec<Arc<Obj>> = objects.iter().flatten().cloned().collect();
             let r = on_helper(native, watchdog, move || {
@@ -393,7 +410,10 @@ pub fn run_program(prog: Program, opts: &Opts, plan: noise::Plan) -> RunResult {
         stats.pool_peak = POOL_PEAK.load(Ordering::SeqCst);
         if native && outcome == Outcome::Completed {
             if let Some(s) = quiesce::snapshot() {
-                let os = quiesce::pool_threads(&s);
+                let mut os = quiesce::pool_threads(&s);
+                // a despawned thread can linger in /proc for a moment after it has been joined: only threads that stay count
+                let mut tries = 0;
+                while os > ctx.prog.pool && tries < 50 { thread::sleep(Duration::from_millis(1)); tries += 1; if let Some(s) = quiesce::snapshot() { os = quiesce::pool_threads(&s); } }
                 if os > ctx.prog.pool { ctx.sink.report("C17", "pool_exceeded_maximum", format!("pool_over_os:max{}", ctx.prog.pool), format!("{} pool threads alive (kernel view) with maximum {}", os, ctx.prog.pool)); }
                 stats.pool_os = os;
             }
